@@ -54,26 +54,23 @@ def shards(tier):
     return out
 
 
-def element_rows(dim, system, n):
-    """n stored rows in `system`: generic vectors with zero vectors (non-zero stored angles) mixed in"""
+def element_rows(dim, system, n, offset=0):
+    """n stored rows in `system`, a window of a cyclic pool in which generic vectors alternate with the zero vector
+    (stored with non-zero angles), vectors with a single non-zero Cartesian component and non-zero light-like vectors"""
     vs = [v for v in A.vectors(dim, "thorough") if not (v.has("near_axis") or v.has("fast") or v.has("negtime") or v.has("spacelike_tltz"))]
-    rows = []
-    i = 0
-    k = 0
-    specials = single_component_rows(system)
-    while len(rows) < n:
-        if k % 3 == 2:
-            # zero vectors, alternating with vectors that have exactly one non-zero Cartesian component
-            j = k // 3
-            rows.append(zero_row(system) if (j % 2 == 0 or not specials) else specials[(j // 2) % len(specials)])
-        else:
-            st = S.stored(vs[i % len(vs)], system)
-            i += 1
-            if st is None:
-                continue
-            rows.append(tuple(float(x) for x in st))
-        k += 1
-    return rows
+    gen = []
+    for v in vs:
+        st = S.stored(v, system)
+        if st is not None:
+            gen.append(tuple(float(x) for x in st))
+        if len(gen) >= 6:
+            break
+    special = [zero_row(system)] + single_component_rows(system)
+    pool = []
+    for i in range(max(len(gen), len(special))):
+        pool.append(gen[i % len(gen)])
+        pool.append(special[i % len(special)])
+    return [pool[(offset + i) % len(pool)] for i in range(n)]
 
 
 def zero_row(system):
@@ -97,6 +94,13 @@ def single_component_rows(system):
     if len(system) > 2:
         r = az + [{"z": 0.0, "theta": 0.7, "eta": 1.0}[system[1]]] + [3.0]
         out.append(tuple(r))
+        # non-zero *light-like* vectors (t^2 == mag^2): tau = 0 exactly in tau systems, a Pythagorean quadruple otherwise
+        if system[2] == "tau":
+            lon = {"z": 1.5, "theta": 0.7, "eta": 1.0}[system[1]]
+            out.append(tuple(([0.375, 0.5] if system[0] == "xy" else [0.625, 0.9375]) + [lon, 0.0]))
+        else:
+            st = S.stored(A.Vec("light", (0.375, 0.5, 1.5, 1.625), set()), system)
+            out.append(tuple(float(x) for x in st))
     return out
 
 
@@ -116,9 +120,9 @@ def close(a, b, scale):
 
 def run_numpy(res: Result, dim, system):
     names = CARTN[dim]
-    for shape in NP_SHAPES:
+    for si, shape in enumerate(NP_SHAPES):
         n = int(np.prod(shape))
-        rows = element_rows(dim, system, max(n, 1))[:n]
+        rows = element_rows(dim, system, max(n, 1), offset=3 * si)[:n]
         for flavor in ("generic", "momentum"):
             arr = B.make_np(system, flavor, rows if n else element_rows(dim, system, 1), shape=None)
             if n == 0:
@@ -189,13 +193,13 @@ def ak_layout(recs, layout):
 
 def run_awkward(res: Result, dim, system):
     names = CARTN[dim]
-    rows = element_rows(dim, system, 6)
     fnames_g = L.field_names(system)
     for flavor in ("generic", "momentum"):
         fn = L.field_names(system, flavor)
-        carts = [cart_of(system, flavor, r) for r in rows]
-        scale = sum(abs(c) for ct in carts for c in ct)
-        for layout in AK_LAYOUTS:
+        for li, layout in enumerate(AK_LAYOUTS):
+            rows = element_rows(dim, system, 6, offset=3 * li + 1)
+            carts = [cart_of(system, flavor, r) for r in rows]
+            scale = sum(abs(c) for ct in carts for c in ct)
             recs = [dict(zip(fn, r)) for r in rows]
             plain = {nme: [c[i] for c in carts] for i, nme in enumerate(names)}
             nested = ak_layout(recs, layout)
@@ -266,7 +270,7 @@ def run_awkward(res: Result, dim, system):
                                 res.violation(f"count|{cls}", f"{red} = {got}, expected {want}", case)
                                 continue
                         res.nontrivial += 1
-    res.sample({"backend": "AKA", "sys": list(system), "layouts": list(AK_LAYOUTS), "reducers": ["ak.sum", "ak.count", "ak.count_nonzero"], "first_row": list(rows[0])})
+    res.sample({"backend": "AKA", "sys": list(system), "layouts": list(AK_LAYOUTS), "reducers": ["ak.sum", "ak.count", "ak.count_nonzero"], "rows_of_last_layout": [list(r) for r in rows]})
 
 
 def run_shard(shard, tier):
